@@ -1,6 +1,7 @@
 package vc
 
 import (
+	"os"
 	"sort"
 	"fmt"
 	"go/types"
@@ -67,6 +68,9 @@ func (e *Exec) call(fr *Frame, st *State, x *ssa.Call) (Value, bool) {
 				return nil, true
 			}
 		}
+	}
+	if os.Getenv("SLIPVC_DEBUG") != "" && callee == nil && c.Method != nil {
+		fmt.Fprintf(os.Stderr, "dyn call %s on %T %v args=%d\n", c.Method.Name(), c.Value.Type(), c.Value.Type(), len(c.Args))
 	}
 	if callee == nil && c.Method != nil && len(c.Args) == 0 && e.Opt.Contracts != nil {
 		if n, ok := c.Value.Type().(*types.Named); ok && e.Opt.Contracts.PureMethods[n.Obj().Name()+"."+c.Method.Name()] {
